@@ -544,6 +544,45 @@ func (c *ctx) twoDecodeEvents() {
 	}
 }
 
+// methodAlias: a frame is built around CALLER-OWNED payload buffers; the encrypting / MIC / marshal methods work on the
+// frame but must not write into those buffers (a second frame built from the same buffer must see the same bytes).
+func (c *ctx) methodAliasEvents() {
+	for i := 0; i < 6; i++ {
+		up := i%2 == 0
+		mt := lorawan.UnconfirmedDataDown
+		if up {
+			mt = lorawan.UnconfirmedDataUp
+		}
+		pb, pback := withSpare(c.bytesN(1 + c.rnd.Intn(40)))
+		fb, fback := withSpare(c.bytesN(1 + c.rnd.Intn(15)))
+		before := string(pback) + "|" + string(fback)
+		fp := uint8(1 + c.rnd.Intn(200))
+		phy := lorawan.PHYPayload{MHDR: lorawan.MHDR{MType: mt, Major: lorawan.LoRaWANR1}, MACPayload: &lorawan.MACPayload{
+			FHDR:  lorawan.FHDR{DevAddr: lorawan.DevAddr{1, 2, 3, 4}, FCnt: c.edge32(), FOpts: []lorawan.Payload{&lorawan.DataPayload{Bytes: fb}}},
+			FPort: &fp, FRMPayload: []lorawan.Payload{&lorawan.DataPayload{Bytes: pb}}}}
+		k := c.key()
+		ev := M{"ev": "methodalias", "up": up, "steps": []interface{}{}}
+		steps := []interface{}{}
+		do := func(name string, f func() error) {
+			res, _ := observeFast(f)
+			steps = append(steps, M{"name": name, "err": res, "intact": string(pback)+"|"+string(fback) == before})
+		}
+		do("EncryptFOpts", func() error { return phy.EncryptFOpts(k) })
+		do("EncryptFRMPayload", func() error { return phy.EncryptFRMPayload(k) })
+		do("SetMIC", func() error {
+			if up {
+				return phy.SetUplinkDataMIC(lorawan.LoRaWAN1_1, 0, 1, 2, k, k)
+			}
+			return phy.SetDownlinkDataMIC(lorawan.LoRaWAN1_1, 0, k)
+		})
+		do("MarshalBinary", func() error { _, err := phy.MarshalBinary(); return err })
+		do("DecryptFRMPayload", func() error { return phy.DecryptFRMPayload(k) })
+		do("DecryptFOpts", func() error { return phy.DecryptFOpts(k) })
+		ev["steps"] = steps
+		c.emit(ev)
+	}
+}
+
 // bandIso2: two objects of one band are mutated one after the other; the first must keep its state while the
 // second changes, and the second must end exactly like an object that received the same operations alone.
 func (c *ctx) genBandOps(chans []band.VerifChannel, extra bool) []M {
@@ -611,6 +650,7 @@ func drvOwn(c *ctx) error {
 			c.reuseEvents()
 			c.subsliceEvents()
 		}
+		c.methodAliasEvents()
 		c.twoDecodeEvents() // last: it registers a proprietary MAC command in this process
 	case "bands":
 		for i := 0; i < c.n; i++ {
